@@ -81,6 +81,10 @@ C30_TxnBinding == IsV("txn") => (ev.accepted => ValidIntended("txn"))
 (* C29: same for blocks; and the hash itself changes whenever a must-bind field changes *)
 C29_BlockBinding == IsV("block") => (ev.accepted => ValidIntended("block"))
 C29_HashSensitive == IsV("block") => ((Altered(alt, cid) \cap BlMust # {}) => ev.hash_changed)
+(* C29, first sentence, for repetitions: a block with a transaction repeated has another transaction list, so   *)
+(* another hash (its own invariant: the recorded finding about Merkle padding suspends only this one)          *)
+C29_RepeatChangesHash ==
+  (IsV("block") /\ ~IsKnownFor(ev, "C29_RepeatChangesHash") /\ ev.dup_n > 0) => ev.hash_changed
 (* vacuity guards: the genuine object is accepted (otherwise nothing is being tested) *)
 HarnessGenuineAccepted == (ev.ev = "Validate" /\ IsGenuine) => ev.accepted
 (* the abstract replay and the driver agree on which fields differ *)
